@@ -143,8 +143,14 @@ class DryReal:
                     ctx.probe("forked_with_unfetched_remote_tag")
             shim_a = fakevcs.VcsShim(wa.repo) if wa.repo is not None else None
             shim_b = fakevcs.VcsShim(wb.repo) if wb.repo is not None else None
-            ra = invoker.invoke(wa.dir, ["update", "--dry"] + args, clock, shim_a, fakevcs.HookShim({}))
-            rb_ = invoker.invoke(wb.dir, ["update"] + args, clock, shim_b, fakevcs.HookShim({}))
+            # the real clock of both runs: the day itself, or (when --date says which day to use) some other day - calendar
+            # parts of file patterns that the version does not carry are then a matter of the clock alone, in both runs alike
+            real_today = clock
+            if "--date" in args and op.get("pick", 0) % 3 == 0:
+                real_today = clock - dt.timedelta(days=400 + op.get("pick", 0) % 900) if clock.year > 1002 else clock
+                ctx.probe("date_flag_differs_from_clock")
+            ra = invoker.invoke(wa.dir, ["update", "--dry"] + args, real_today, shim_a, fakevcs.HookShim({}))
+            rb_ = invoker.invoke(wb.dir, ["update"] + args, real_today, shim_b, fakevcs.HookShim({}))
             ctx.invocations += 2
             ctx.event(args, ra.exit_code, rb_.exit_code, invoker.digest_snapshot(rb_.after))
             facts = {"pattern": pattern, "legacy": legacy.is_legacy(pattern),
